@@ -42,17 +42,16 @@ def run(res, f, tier):
     if not t:
         raise Inconclusive("recursive evaluator not found from Expr::evaluate")
     spec = load_spec()
-    res.floor("node kinds with operator functions", len(t["op_of_kind"]), 30)
+    res.floor("node kinds with an operator table", len([k for k in spec if k in t["cells_by_kind"]]), 30)
     ncells = 0
     nbad = 0
     samples = []
     for kind in sorted(spec):
-        fns = t["op_of_kind"].get(kind, [])
-        if not fns:
-            res.violation("C02|dispatch|%s" % kind, "node kind %s is not dispatched to an operator function" % kind)
+        if kind not in t["cells_by_kind"]:
+            res.violation("C02|dispatch|%s" % kind, "node kind %s has no operator table (its operands are not evaluated sub-expressions)" % kind)
             continue
-        for fn0, (combo, outs) in ((fn_, it_) for fn_ in fns for it_ in sorted(t["cells"][fn_].items())):
-            fns = [fn0]
+        fns = t["op_of_kind"].get(kind, ["<inline>"])
+        for combo, outs in sorted(t["cells_by_kind"][kind].items()):
             ncells += 1
             key = ",".join(combo)
             actual = cell_outcomes(outs)
@@ -76,6 +75,8 @@ def run(res, f, tier):
     mm, st = dispatch.compare_rows(t, classes=("bool",))
     wiring_bad = 0
     for m in mm:
+        if m["kind"] in t["cells_by_kind"] and m["kind"] in spec:
+            continue      # the wiring of an operator node is part of its table (read through the evaluator's arm)
         # only success paths (those that reach the operator / context call) are C02's; order and laziness are C05's
         miss = [x for x in m["missing"] if isinstance(x, dict) and any(e.startswith(("op", "ctx", "push", "insert")) for e in x["events"])]
         unex = [x for x in m["unexpected"] if isinstance(x, dict) and any(e.startswith(("op", "ctx", "push", "insert")) for e in x["events"])]
